@@ -155,6 +155,17 @@ chk("C10", "latx+seqx", "exploration",
     "Placements subsampled deterministically in the quick tier (<= 150 per setting); estimators stubbed.",
     "DESIGN.md §5/C10")
 
+chk("C02", "latx", "exploration",
+    "exhaustive evaluation of every invertible potential's real displacement() on a lattice built from the branch "
+    "boundaries of its case tree (+- 0..5 ulp) x directions x charge signs x parameters x box lengths x energy "
+    "budgets (hill height +- ulps, geometric grid, lap multiples, denormals), compared with the closed-form "
+    "cumulative uphill integral of an independently coded energy; hard cores against 60-digit contact times",
+    "The oracle is the definition in the property (accumulated positive energy increments along the straight path, "
+    "through periodic images for the periodic bound) evaluated on monotone segments; finite/infinite classification "
+    "and totality/sign are checked for every lattice point.",
+    "Lattice inputs only; identity tolerance 1e-9 E + 1e-11 max|U|; failures for 'extreme' budgets (< 2^-40 |U| or "
+    "within 2^-40 of the hill height) are the recorded known finding.", "DESIGN.md §5/C02")
+
 ENGINES = [
     {"name": "schedx", "path": "jfv/schedx.py", "serves_properties": ["C20"],
      "kind_free_text": "controlled cooperative scheduler over fake multiprocessing primitives; deviation-bounded "
